@@ -3,7 +3,7 @@ Sequential model = outcome of the first call in a fresh single-threaded process.
 repeated calls in a long-lived process with failing/panicking calls in between (hash seeds re-drawn per
 map instance), further fresh processes, 16 threads released from a barrier (also as the process's very
 first compile: OnceLock/RwLock initialisation race), and permuted file insertion orders."""
-import json, re, itertools
+import json, os, re, itertools
 from .. import core, corpus
 from ..gen import grel, gtext
 
@@ -211,6 +211,85 @@ def _files_shard(dummy):
     return viols, obs
 
 
+TSAN_BIN = os.path.join(core.ROOT, "harness", "target-tsan", "x86_64-unknown-linux-gnu", "release", "pv-tsan")
+
+
+def tsan_phase(progs_targets, obs):
+    """ThreadSanitizer build of the thread-stress program (thorough tier only). A data-race report in
+    code reached by concurrent compiles is a violation; if the instrumented build cannot be produced
+    or its self-test does not fire, the phase yields no verdict (recorded, never folded into held)."""
+    import subprocess, tempfile
+    info = {"status": "not_run"}
+    obs["tsan"] = info
+    env = dict(os.environ, RUSTFLAGS="-Zsanitizer=thread", CARGO_TARGET_DIR=os.path.join(core.ROOT, "harness", "target-tsan"), CARGO_NET_OFFLINE="true")
+    try:
+        b = subprocess.run(["cargo", "+nightly", "build", "-Zbuild-std", "--target", "x86_64-unknown-linux-gnu", "--release", "--offline", "-p", "pv-tsan"],
+                           cwd=os.path.join(core.ROOT, "harness"), env=env, stdout=subprocess.PIPE, stderr=subprocess.STDOUT, text=True, timeout=1500)
+    except Exception as e:
+        info.update(status="unavailable", reason="build: %s" % e)
+        return []
+    if b.returncode != 0 or not os.path.exists(TSAN_BIN):
+        info.update(status="unavailable", reason="instrumented build failed: " + b.stdout[-300:])
+        return []
+    tenv = dict(os.environ, TSAN_OPTIONS="halt_on_error=0 exitcode=66 second_deadlock_stack=1")
+    st = subprocess.run([TSAN_BIN, "--selftest"], env=tenv, stdout=subprocess.PIPE, stderr=subprocess.PIPE, text=True, timeout=120)
+    if st.returncode != 66 or "ThreadSanitizer: data race" not in st.stderr:
+        info.update(status="not_effective", reason="self-test race was not reported (exit %s)" % st.returncode)
+        return []
+    viols = []
+    info.update(status="ran", processes=0, programs=0, calls=0, reports=0, mismatching_programs=0)
+    P = 32
+    batches = [progs_targets[i::P] for i in range(P)]
+    procs = []
+    tmp = tempfile.mkdtemp(prefix="pvtsan", dir=os.path.join(core.ROOT, "harness", "target-tsan"))
+    for i, bt in enumerate(batches):
+        if not bt:
+            continue
+        f = os.path.join(tmp, "b%d.json" % i)
+        json.dump([{"src": s, "target": t} for s, t in bt], open(f, "w"))
+        procs.append((bt, subprocess.Popen([TSAN_BIN, f, "8"], env=tenv, stdout=subprocess.PIPE, stderr=subprocess.PIPE, text=True)))
+        if len(procs) % core.NCPU == 0:
+            for _, pr in procs[-core.NCPU:]:
+                pr.wait()
+    seen = set()
+    for bt, pr in procs:
+        try:
+            out, err = pr.communicate(timeout=900)
+        except subprocess.TimeoutExpired:
+            pr.kill()
+            info["watchdog"] = info.get("watchdog", 0) + 1
+            continue
+        info["processes"] += 1
+        try:
+            summ = json.loads(out.strip().splitlines()[-1])
+        except Exception:
+            summ = {}
+        info["programs"] += summ.get("programs", 0)
+        info["calls"] += summ.get("calls", 0)
+        for idx in summ.get("mismatches", []):
+            info["mismatching_programs"] += 1
+            src, tgt = bt[idx]
+            viols.append({"property": "C11", "symptom": "nondeterministic:threads_tsan", "shape": "threads:" + norm_shape(src),
+                          "witness": {"mode": "threads", "src": src, "target": tgt}, "detail": "threads of one barrier release disagreed under the TSan build"})
+        blocks = err.split("==================")
+        for blk in blocks:
+            if "WARNING: ThreadSanitizer" not in blk:
+                continue
+            info["reports"] += 1
+            frames = [re.sub(r"\s+\(.*$", "", l.split(" ", 2)[-1]).strip() for l in blk.splitlines() if re.match(r"\s+#\d+ ", l)]
+            own = [f for f in frames if "prqlc" in f or "prql" in f]
+            key = " <- ".join(re.sub(r"::h[0-9a-f]{16}|<[^<>]*>", "", f)[:80] for f in own[:2]) or (frames[0][:80] if frames else "?")
+            kind = re.search(r"ThreadSanitizer: ([a-z -]+)", blk)
+            sym = "tsan:" + (kind.group(1).strip().replace(" ", "_") if kind else "report")
+            if (sym, key) in seen:
+                continue
+            seen.add((sym, key))
+            viols.append({"property": "C11", "symptom": sym, "shape": key, "witness": {"mode": "tsan", "programs": [list(x) for x in bt[:5]]}, "detail": blk.strip()[:1500]})
+    import shutil
+    shutil.rmtree(tmp, ignore_errors=True)
+    return viols
+
+
 def run(tier, seed):
     run = core.Run("C11", tier, seed)
     rng = core.shard_rng(seed, "C11", 0)
@@ -245,6 +324,9 @@ def run(tier, seed):
     for v, o in res:
         run.extend(v)
         core.merge_counts(obs, o)
+    if tier != "quick" or os.environ.get("PV_TSAN") == "1":
+        tprogs = [(p, targets[i % len(targets)]) for i, p in enumerate(ok_progs[:1500] + SPECIAL)]
+        run.extend(tsan_phase(tprogs, obs))
     best = {}
     for v in run.violations:
         k = (v["symptom"], v["shape"])
@@ -264,6 +346,7 @@ def run(tier, seed):
         "every std HashMap instance draws fresh keys, so repetition in one process samples hash seeds; detection probability of a two-candidate order dependence is 1 - 2^-(K-1) per program",
         "PRQL_VERSION_OVERRIDE is unset in the workers; colour is forced off (display plain): both are environment inputs, not history",
         "file-order mode compares SQL, RQ and (reason, hints, code) of errors; span source ids legitimately follow insertion order",
+        "ThreadSanitizer phase (thorough tier, or PV_TSAN=1): coverage.tsan.status is 'ran' only if the instrumented build succeeded AND its self-test race was reported; 'unavailable' / 'not_effective' mean no verdict from that phase (the other phases still decide). No report on N calls is not a proof of race freedom",
     ]
     if obs.get("overlapping_pairs", 0) == 0:
         run.inconclusive = "no overlapping concurrent calls observed"
